@@ -374,6 +374,29 @@ def rule_li(ctx):
         rep.ob('I', 'core.PrefetchDataset.__iter__::maps-frozen-lookup-over-the-iterable', ok and okf and delivered, c,
                '' if ok and okf and delivered else 'lazy_parallel_map must map a lookup on the frozen copy over `iterable` '
                'and its results must be delivered in order')
+    base = ctx.repo.dataset_base()
+    for caller, callee_name, callee, params in (
+            ('prefetch', 'PrefetchDataset', pf.own('__init__').node, ('num_workers', 'backend')),
+            ('map', 'ParMapDataset', pm.own('__init__').node, ('num_workers', 'backend')),
+            ('batch_map', 'map', base.own('map').node, ('num_workers', 'backend'))):
+        cf = base.own(caller).node
+        for c in [n for n in A.walk_local(cf) if isinstance(n, ast.Call) and (A.dotted(n.func) or '').split('.')[-1] == callee_name]:
+            bb = flow.bind(c, callee)
+            for p_ in params:
+                e = bb.args.get(p_)
+                okp = A.is_name(e, p_)
+                rep.ob('I', 'core.Dataset.%s::passes(%s)->%s' % (caller, p_, callee_name), okp, c,
+                       '' if okp else 'the requested %s does not reach %s (%s)' % (p_, callee_name, A.short(e) if e is not None else 'default'))
+    # the single-thread shortcut is selected by the same condition where it is validated and where it is taken
+    def shortcut_cond(fnode, prefix):
+        for n in fnode.body:
+            if isinstance(n, ast.If) and 'num_workers' in A.src(n.test) and 'backend' in A.src(n.test):
+                return A.src(A.strip_not(n.test)[0]).replace(prefix, '')
+        return None
+    c1 = shortcut_cond(pf.own('__init__').node, 'self.')
+    c2 = shortcut_cond(it, 'self.')
+    rep.ob('I', 'core.PrefetchDataset::single-thread-shortcut-condition-agrees(__init__,__iter__)', c1 is not None and c1 == c2, it,
+           '' if c1 == c2 else 'the constructor validates for `%s` but iteration takes the shortcut for `%s`' % (c1, c2))
     pi = pm.own('__iter__').node
     pcalls = [n for n in A.walk_local(pi) if isinstance(n, ast.Call) and A.dotted(n.func) == 'lazy_parallel_map']
     for c in pcalls:
